@@ -272,7 +272,8 @@ def main():
     c.add_argument("--tier", default=None)
     r = sp.add_parser("replay")
     r.add_argument("file")
-    sp.add_parser("selftest")
+    stp = sp.add_parser("selftest")
+    stp.add_argument("--quick", action="store_true")
     a = ap.parse_args()
     if a.cmd == "check":
         sys.exit(cmd_check(a))
